@@ -63,11 +63,15 @@ func registerVrt(p *Program) {
 	intr["vrtChoose"] = func(fr *frame, a []value) value {
 		m := fr.m
 		n := int(asInt64(m.concretize(a[0], "vrtChoose-n")))
-		v := m.newInput("int", types.Int).(symv)
+		vIn := m.newInput("int", types.Int)
+		v, _ := vIn.(symv)
 		if n <= 0 {
 			panic(pathEnd{"infeasible", "vrtChoose(0)"})
 		}
 		i := m.choose(n, "vrtChoose")
+		if m.conc != nil {
+			return i
+		}
 		if m.model != nil {
 			m.model[v.t.Name] = uint64(i) // v is fresh: the patched model still satisfies pc
 		}
@@ -232,7 +236,9 @@ func registerVrt(p *Program) {
 		return nil
 	}
 	intr["vrtRedirect"] = func(fr *frame, a []value) value {
-		setup(fr)
+		// also usable by Engine-A harnesses (environment stubs such as net.Dial);
+		// natively it is a no-op, so such jobs confirm counterexamples in the
+		// interpreter (spec: "confirm": "interpreter")
 		if fr.m.redirects == nil {
 			fr.m.redirects = map[string]value{}
 		}
